@@ -1002,7 +1002,13 @@ func genWorldC09(seed uint64, proj *Project) *World {
 		for k := 1 + r.n(2); k > 0; k-- {
 			// drawn from a small per-worker palette, so that the reference
 			// processes that pre-screen them are computed once
-			p := genProject(&rng{s: hashSeed(noiseBase, 4242, uint64(r.n(64)))}, 35)
+			nr := &rng{s: hashSeed(noiseBase, 4242, uint64(r.n(64)))}
+			if r.pct(50) {
+				// … mostly of the judged project's own kind: what survives between two
+				// inputs of one kind (a pooled scanner, a memo) meets the next input of that kind
+				nr = &rng{s: hashSeed(noiseBase, 4243, fnv(0, proj.Kind), uint64(r.n(24))), focus: proj.Kind}
+			}
+			p := genProject(nr, 35)
 			o := len(w.Objects)
 			w.Objects = append(w.Objects, p)
 			ops = append(ops, Op{Obj: o, Kind: "build"})
@@ -1090,7 +1096,7 @@ func genWorldC10(seed uint64, faults bool) *World {
 		w.Objects = append(w.Objects, p)
 		q := []Op{{Obj: o, Kind: "build"}}
 		q = append(q, objOps(r, o, &p, 1, 6)...)
-		if faults && r.pct(12) && p.Kind == "jschema" {
+		if faults && r.pct(12) && (p.Kind == "jschema" || p.Kind == "jsondoc") {
 			// F-panic inside one operation of this object; it is the object's last
 			k := r.n(len(q))
 			if panicOK(q[k].Kind) {
